@@ -49,6 +49,19 @@ def cases(tier, rng):
         k += 1
         out.append("m%d sock REQ / attach a REP / send 71 / wire a / feed a %s / recv / send 72 / wire a" % (k, W.tok(W.msg(bad))))
         k += 1
+    # REQ with several servers of which one has gone (its id is still queued): still exactly one delimiter
+    for p in payloads[:12]:
+        t = ";".join(W.tok(f) for f in p)
+        for first in ("a", "b"):
+            other = "b" if first == "a" else "a"
+            rep = W.tok(W.msg([b"", b"r"]))
+            ops = ["attach a REP", "attach b REP", "attach c REP", "eof " + first]
+            for i in range(7):
+                ops += ["send " + t, "wire a", "wire b", "wire c"]
+                ops += ["feed %s %s" % (x, rep) for x in "abc" if x != first]
+                ops += ["recv"]
+            out.append("s%d sock REQ / %s" % (k, " / ".join(ops)))
+            k += 1
     # through a ROUTER hop: ROUTER prepends the identity, REP keeps it in the envelope, ROUTER strips it again
     for p in payloads[:20]:
         t = ";".join(W.tok(f) for f in p)
@@ -93,6 +106,25 @@ def judge(line, obs, orc):
             return "REP reply does not retrace the request's envelope: %s (expected %s)" % (str(po[4][1])[:120], want[:120])
         if not str(po[5][1]).startswith("s=err:ReturnToSender"):
             return "REP accepted a second reply: " + str(po[5][1])
+    elif kind == "s":
+        # every request that is written anywhere is written as exactly [""] + payload, to one connection
+        i = 0
+        while i < len(po):
+            op, tk = po[i]
+            if op[0] == "send" and tk == "s=ok":
+                frames = S.frames_of_tok(op[1])
+                wires = []
+                j = i + 1
+                while j < len(po) and po[j][0][0] != "send":
+                    if po[j][0][0] == "wire":
+                        wires.append(po[j][1].split("=", 1)[1])
+                    j += 1
+                got = [w for w in wires if w != "-"]
+                if got != [S.enc([b""] + frames)]:
+                    return "REQ request on the wire is not exactly one delimiter + payload on one connection: %s" % str([g[:60] for g in got])
+                i = j
+                continue
+            i += 1
     elif kind == "m":
         if t == "REP":
             if not str(po[2][1]).startswith("r=err") and "r=ok:" in str(po[2][1]):
